@@ -403,12 +403,12 @@ PROP = Prop(
           "a group lacking a class or sharing a score (structure); >=2 groups (sampling); >=4 "
           "steps incl. a sampling step and 3 kinds of step (history)."),
     clauses=[
-        Clause("structure", check_structure, strategy=_struct_cases(), quick=300, thorough=1500,
+        Clause("structure", check_structure, strategy=_struct_cases(), quick=300, thorough=6000,
                quick_shards=3, min_nontrivial=50, doc="label attachment, partition, groupwise"),
-        Clause("sampling", check_sampling, strategy=_sample_cases(), quick=400, thorough=2000,
+        Clause("sampling", check_sampling, strategy=_sample_cases(), quick=400, thorough=8000,
                quick_shards=3, min_nontrivial=100, doc="labels stay attached through resampling"),
         Clause("history", check_history, kind="machine", machine=make_machine, quick=80,
-               thorough=400, quick_shards=3, shards=8, steps=10, min_nontrivial=20,
+               thorough=1600, quick_shards=3, shards=8, steps=10, min_nontrivial=20,
                doc="swap / sample / getitem / group_cm histories"),
     ],
     assumptions=["labels are compared by value (==), not by dtype: by_group sampling of a group "
